@@ -20,7 +20,7 @@ func alignArm(b *ssa.BasicBlock) string {
 	arm := ""
 	for _, cf := range dominatingConds(b) {
 		bo, ok := cf.Cond.(*ssa.BinOp)
-		if !ok || bo.Op != token.EQL || !cf.Val {
+		if !ok || !(bo.Op == token.EQL && cf.Val || bo.Op == token.NEQ && !cf.Val) {
 			continue
 		}
 		for _, side := range []ssa.Value{bo.X, bo.Y} {
@@ -976,15 +976,12 @@ func c04Padding(c *Ctx, wwa *ssa.Function, ws *types.Named) {
 				posS = i
 				continue
 			}
-			call, ok := part.(*ssa.Call)
-			if !ok || !isFunc(call.Call.StaticCallee(), "strings", "Repeat") {
+			cntV, ok := spaceRun(part)
+			if !ok {
 				okParts = false
 				continue
 			}
-			if s, ok := constString(call.Call.Args[0]); !ok || s != " " {
-				okParts = false
-			}
-			cnt := p.linOf(call.Call.Args[1])
+			cnt := p.linOf(cntV)
 			counts = append(counts, cnt)
 			sum = sum.add(cnt)
 		}
@@ -1056,4 +1053,37 @@ func condInsideLoop(b *ssa.BasicBlock) bool {
 		}
 	}
 	return false
+}
+
+// spaceRun: v is a run of ASCII spaces of a computed length: strings.Repeat(" ", n), or a call of a module helper
+// whose only result is strings.Repeat(" ", <its parameter>). Returns n (in the caller's terms).
+func spaceRun(v ssa.Value) (ssa.Value, bool) {
+	call, ok := v.(*ssa.Call)
+	if !ok {
+		return nil, false
+	}
+	f := call.Call.StaticCallee()
+	if isFunc(f, "strings", "Repeat") {
+		if s, ok := constString(call.Call.Args[0]); ok && s == " " {
+			return call.Call.Args[1], true
+		}
+		return nil, false
+	}
+	if f == nil || !inModule(f) || f.Blocks == nil || f.Signature.Recv() != nil {
+		return nil, false
+	}
+	rets := returnsOf(f)
+	if len(rets) != 1 || len(results(rets[0])) != 1 {
+		return nil, false
+	}
+	inner, ok := spaceRun(results(rets[0])[0])
+	if !ok {
+		return nil, false
+	}
+	for i, par := range f.Params {
+		if inner == ssa.Value(par) {
+			return call.Call.Args[i], true
+		}
+	}
+	return nil, false
 }
